@@ -183,6 +183,44 @@ def first_diff(old, new):
     return "unknown", ""
 
 
+# ------------------------------------------------------------------------------------------- caller-owned arguments
+# Every public scheduling primitive is an exo.API_scheduling.AtomicSchedulingOp.  Its __call__ is wrapped (inside this
+# process only): the containers the caller passes (lists / dicts / sets, one level deep) are snapshotted before the
+# call and compared after it, whether it returned or raised.
+ARG_MUTATIONS = []
+
+
+def _snap(x):
+    if isinstance(x, list):
+        return ("list", tuple(id(e) for e in x), tuple(_snap(e) for e in x if isinstance(e, (list, dict, set))))
+    if isinstance(x, dict):
+        return ("dict", tuple((id(k), id(v)) for k, v in x.items()))
+    if isinstance(x, set):
+        return ("set", tuple(sorted(id(e) for e in x)))
+    return None
+
+
+def install_argument_watch():
+    import exo.API_scheduling as AS
+
+    orig = AS.AtomicSchedulingOp.__call__
+    if getattr(orig, "_c07_watch", False):
+        return
+
+    def watched(self, *args, **kwargs):
+        owned = [a for a in list(args) + list(kwargs.values()) if isinstance(a, (list, dict, set))]
+        before = [_snap(a) for a in owned]
+        try:
+            return orig(self, *args, **kwargs)
+        finally:
+            for a, b in zip(owned, before):
+                if _snap(a) != b:
+                    ARG_MUTATIONS.append(getattr(self, "__name__", None) or getattr(self.func, "__name__", "?"))
+
+    watched._c07_watch = True
+    AS.AtomicSchedulingOp.__call__ = watched
+
+
 # ------------------------------------------------------------------------------------------- session
 GEN_NAME = re.compile(r"\b(bnd|io|ii|ij|al|sub_x|stg|renamed)_\d+")
 
@@ -252,6 +290,10 @@ class Session:
 
     # -- the check after every call
     def check_all(self, opname, step):
+        while ARG_MUTATIONS:
+            prim = ARG_MUTATIONS.pop()
+            self.violation(prim.replace("_", "_"), "argument-list", "a container passed by the caller (list / dict / set argument) "
+                           "was edited in place by the primitive %s (during %s)" % (prim, opname), step)
         for n, l in enumerate(self.live):
             try:
                 if l.kind == "proc":
@@ -613,6 +655,7 @@ def main():
         out.write(json.dumps(rec, default=str) + "\n")
         out.flush()
 
+    install_argument_watch()
     stats = {"sessions": 0, "modules": 0, "rejected_modules": 0, "calls": 0, "queries": 0, "fingerprint_rounds": 0,
              "objects_fingerprinted": 0, "ccode_recomputed": 0, "replayed_ops": 0, "by_op": {}, "by_query": {},
              "chain_lengths": {}, "harness_errors": 0, "violations": 0, "sweeps": 0}
